@@ -1,9 +1,16 @@
-(** C11 — De Bruijn-notation Debug output parses back to the identical term.
+(** C11 — De Bruijn-notation Debug output parses back to the identical term *)
+From LC Require Import Spec.Printing Model.Parser Model.Display Proofs.Printing Proofs.RoundTripDbr.
 
-    PARTIAL at the level of theorems: the format clause is proved (all terms with indices 1..15,
-    both glyphs); the round trip is decided by the check (implementation and model). *)
-From LC Require Import Model.Display Spec.Printing Proofs.Printing.
+(** for every term (open or closed) whose indices lie in 1..15, under both glyphs: parsing the
+    Debug output of the model with the model of the parser yields exactly the original term.
+    ([classify] gives the std character classes of the characters Debug emits; it is compared
+    with Rust's std on every printed string by the check.) *)
+Theorem C11_roundtrip : forall lam t, (lam = 955%N \/ lam = 92%N) -> indices_in 1 15 t = true ->
+  parse (map classify (debug lam t)) DeBruijn = inr t.
+Proof. exact debug_roundtrip. Qed.
 
+(** the documented compact format: one upper-case hex digit per index, the glyph, no whitespace,
+    parentheses only around abstractions in operator/operand position and applications in operand position *)
 Theorem C11_format : forall lam t, indices_in 1 15 t = true -> debug lam t = ref_print_dbr lam t.
 Proof. exact debug_format. Qed.
 
@@ -11,4 +18,5 @@ Example C11_example :
   debug 955%N (App (Var 15) (App (Abs (Var 10)) (App (Var 1) (Var 2)))) = [70; 40; 40; 955; 65; 41; 40; 49; 50; 41; 41]%N.
 Proof. vm_compute. reflexivity. Qed.
 
+Print Assumptions C11_roundtrip.
 Print Assumptions C11_format.
